@@ -41,6 +41,7 @@ def judgeMutex : Judge := liftJudge fun input obs => do
   let probe ← probeJ.toList.mapM (·.getBool?)
   let leftover := optInt obs "leftover"
   let unlockErrs := optInt obs "unlockErrs"
+  let stale := optInt obs "stale"
   let fails := evs.countP fun e => match e with | .failed _ => true | _ => false
   let acqs := evs.countP fun e => match e with | .acquired _ => true | _ => false
   let probeOK := probe.all id && !probe.isEmpty
@@ -59,11 +60,12 @@ def judgeMutex : Judge := liftJudge fun input obs => do
     return { agree := true, spec := true, tags := tags, nontrivial := false }
   if unlockErrs != 0 then
     return { agree := true, spec := true, tags := tags, nontrivial := false }
-  let free := probeOK && leftover == 0
+  let free := probeOK && leftover == 0 && stale == 0
   let recovered := failuresRecovered probeOK evs
   let spec := excl && free && recovered
   let sig := if spec then "" else
     if !excl then "mutex:two-holders"
+    else if stale != 0 then "mutex:stale-key-after-failed-lock"
     else if leftover != 0 then "mutex:key-left-behind"
     else "mutex:not-free-after-failure"
   pure { agree := modelOK, spec := spec,
